@@ -13,5 +13,6 @@ func main() {
 		"C12": c12{},
 		"C13": c13{},
 		"C14": c14{},
+		"KV":  kv{},
 	})
 }
